@@ -112,6 +112,9 @@ type Client struct {
 	// forcefully killed.
 	processKilled bool
 
+	// killLock serializes calls to Kill.
+	killLock sync.Mutex
+
 	unixSocketCfg UnixSocketConfig
 
 	grpcMuxerOnce sync.Once
@@ -497,6 +500,12 @@ func (c *Client) killed() bool {
 //
 // This method can safely be called multiple times.
 func (c *Client) Kill() {
+	// Only one Kill runs at a time. A concurrent caller would otherwise find
+	// the protocol client already closed, take that for a failed graceful
+	// shutdown and force kill a plugin that is still exiting cleanly.
+	c.killLock.Lock()
+	defer c.killLock.Unlock()
+
 	// Grab a lock to read some private fields.
 	c.l.Lock()
 	runner := c.runner
